@@ -161,3 +161,29 @@ def shape_stats(shapes):
         "all_empty": frac(lambda s: len(s) > 0 and all(l == 0 for l in s)),
         "max_len_hist": hist(max(s) if s else 0 for s in shapes),
     }
+
+
+DERIVATIONS = [None, None, "select", "ufunc", "astype", "rev2", "mask_all", "list_all", "concat0"]
+
+
+def derive_ra(ra, how):
+    """a value-preserving derivation of a ragged array: the result holds the same rows, but its shape object / buffer were built by
+    the library (a derived array must behave like a freshly built one)"""
+    import numpy as np
+    if how is None:
+        return ra
+    if how == "select":
+        return ra[:]
+    if how == "ufunc":
+        return np.maximum(ra, ra) if ra.dtype != np.bool_ else np.logical_or(ra, ra)
+    if how == "astype":
+        return ra.astype(ra.dtype)
+    if how == "rev2":
+        return ra[::-1][::-1]
+    if how == "mask_all":
+        return ra[np.ones(len(ra), dtype=bool)]
+    if how == "list_all":
+        return ra[list(range(len(ra)))] if len(ra) else ra
+    if how == "concat0":
+        return np.concatenate([ra[:0], ra]) if len(ra) else ra
+    raise ValueError(how)
